@@ -140,23 +140,16 @@ theorem numDigits_le : ∀ (fuel T k : ℕ), 1 ≤ k → T < 10 ^ k → numDigit
           have := numDigits_le fuel (T / 10) (k + 1) (by omega) this
           omega
 
-/-- `add_time_variable` reads TSTEP correctly as long as it has at most six digits … -/
-theorem atv_tstep_ok (T : ℕ) (h : T < 1000000) : (tstepSecondsATV T : ℤ) = tstepSeconds (T : ℤ) := by
+/-- `add_time_variable` reads every TSTEP — any number of hour digits — as the IOAPI rule says (repaired code) -/
+theorem atv_tstep_ok (T : ℕ) : (tstepSecondsATV T : ℤ) = tstepSeconds (T : ℤ) := by
   unfold tstepSecondsATV tstepSeconds
-  by_cases h0 : T = 0
-  · subst h0; simp
-  · simp only [h0, if_false]
-    have hk : max 6 (numDigits 30 T) = 6 := by
-      have : numDigits 30 T ≤ 6 := numDigits_le 30 T 6 (by norm_num) (by norm_num; exact h)
-      omega
-    rw [hk]
-    norm_num
-    omega
+  push_cast
+  omega
 
-/-- … and mis-reads a seven-digit TSTEP (100 hours): recorded finding
-`C12/add_time_variable/tstep-7-digits`, witness replayed on the real code. -/
+/-- the character-position slicing the code used before mis-read a seven-digit TSTEP (100 hours):
+`fixed: property=C12 … tstep-7-digits`, the witness is replayed on the real code and must not reproduce -/
 theorem atv_tstep_counterexample :
-    tstepSecondsATV 1000000 = 36000 ∧ tstepSeconds 1000000 = 360000 := by decide
+    tstepSecondsSliced 1000000 = 36000 ∧ tstepSeconds 1000000 = 360000 ∧ tstepSecondsATV 1000000 = 360000 := by decide
 
 /-- The 365/366-day calendar path drops the time of day: half a day after the reference decodes
 to the same instant as the reference itself (recorded finding
